@@ -367,26 +367,6 @@ Definition pverdict (s : pst) (k : option qkey) (rid : Z) : option (verdict * Z)
   | None => match zfind rid (noconf s) with Some t => Some (VMissingConfig, t) | None => None end
   end.
 
-(* grants of all queues of a key counted in the window that ends at w *)
-Definition count_win (w : Z) (l : list grant) : Z :=
-  Z.of_nat (length (filter (fun g => snd (fst g) =? w) l)).
-
-Fixpoint kgrants (w : Z) (l : list st) : Z :=
-  match l with
-  | [] => 0
-  | s :: t => count_win w (log s) + kgrants w t
-  end.
-
-(* grants by the instant at which they were given: aligned window ending at w *)
-Definition count_at (c : cfg) (w : Z) (l : list grant) : Z :=
-  Z.of_nat (length (filter (fun g => uend c (snd g) =? w) l)).
-
-Fixpoint kgrants_at (c : cfg) (w : Z) (l : list st) : Z :=
-  match l with
-  | [] => 0
-  | s :: t => count_at c w (log s) + kgrants_at c w t
-  end.
-
 (* requests of the key blocked in Enqueue, over all its queues *)
 Fixpoint kcount (l : list st) : Z :=
   match l with
